@@ -819,7 +819,7 @@ def crop_passthrough(rep, prog, rule):
              "the pixel grid or clamped on the way maps destination pixels to other source "
              "positions than the caller's box does (for Nearest: floor(left + ..) of a left that "
              "was moved across an integer)")
-    adt = [k for k in prog.adts if k.endswith("crop_box::CroppedSrcImageView")]
+    adt = prog.adt_ids("CroppedSrcImageView")
     if len(adt) != 1:
         rep.unk(rule, "anchor", "", "struct CroppedSrcImageView not found")
         return
